@@ -1,4 +1,6 @@
 import EaselModel.Miniapps.Tools
+import EaselModel.Miniapps.ReformatMsaLemmas
+import EaselModel.Miniapps.AliLemmas
 /-! # C13 — property theorems about the reference functions of the miniapps (statements + glue only)
 
 The property has two halves. The half a model can express — "for valid inputs the core tools produce what their manual
@@ -384,5 +386,156 @@ example : revcompText (revcompText (subseq "ACGTTGCAAG".toList 3 7)) = "GTTGC".t
 /-- `easel downsample`: the same selection theorem with the 64-bit generator plugged in -/
 theorem downsample_selects {α : Type} [DecidableEq α] (m : Nat) (items : List α) (g : EaselModel.Random.Rng64) :
     ∃ l, l.Sublist items ∧ (selectn rollRng64 m items g).Perm l := selectn_selects rollRng64 m items g
+
+/-! ## esl-reformat between alignment formats, with options (`Miniapps/ReformatMsa.lean` = C03 readers/writers ∘ C15 operations)
+
+"reformatting converts between any two compatible formats without changing names or residues (and conversion back returns
+the original)" for the alignment branch of the tool, which the round-1/2 check covered only through a monitor. -/
+section ReformatMsa
+open EaselModel.Msafile EaselModel.Miniapps.Ali
+
+/-- `esl-reformat --namelen 10 phylip|phylips` prints exactly what `esl-reformat phylip|phylips` prints -/
+theorem reformat_namelen_default_is_phylip (seq : Bool) (abc : Option Msafile.Abc) (m : FMsa) :
+    phylipWriteW 10 seq abc m = phylipWrite seq abc m := phylipWriteW_ten seq abc m
+
+/-- **`--namelen` round trip**: the file written with `--namelen 10` in either PHYLIP flavour, read back in THAT flavour,
+    is the alignment (names cut to ten characters, rows exactly): conversion and back returns the original.
+    (The seeded change C13-c - interleaved output under `phylips` - breaks this for every alignment wider than 60 columns.) -/
+theorem reformat_namelen_roundtrip (seq : Bool) (m : FMsa) (h : PhylipTextWritable m) :
+    phylipRead seq (phylipCfg none) (splitLines (phylipWriteW 10 seq none m)) = (.ok (phylipProject (phylipCfg none) m), []) := by
+  rw [phylipWriteW_ten]
+  cases seq
+  · exact phylipRead_write none (phylipCfg none) id _ m (phylipTextWritable_writable m h)
+  · exact phylipsRead_write none (phylipCfg none) id _ m (phylipTextWritable_writable m h)
+
+/-- **sequential layout at every name width**: `--namelen n phylips` prints the header and then the sequences one after
+    the other, and the residue parts of one sequence's lines, glued together, are its row (upper-cased, `._` as `-`, `~` as `?`
+    by the writer's rectification) behind its name cut/padded to `n` columns: residues are never interleaved with another
+    sequence's, whatever `n` and however wide the alignment -/
+theorem reformat_phylips_row_contiguous (nw : Nat) (m : FMsa) (halen : 1 ≤ m.alen) (idx : Nat)
+    (hlen : (m.aseq.getD idx []).length = m.alen) (h0 : ∀ c ∈ m.aseq.getD idx [], c ≠ 0) :
+    phylipSequentialLinesW nw none m = phyWrHeader m :: (List.range m.nseq).flatMap (phySeqRowLines nw none m) ∧
+    (phySeqRowLines nw none m idx).flatten = padTrunc nw (m.names.getD idx []) ++ [32] ++ phyRectifyText (m.aseq.getD idx []) :=
+  ⟨rfl, phySeqRowLines_flatten nw m idx halen hlen h0⟩
+
+/-- the tool is `write ∘ transform ∘ read` on a file that holds one alignment -/
+theorem reformat_msa_is_write_transform_read (o : Opts) (infmt outfmt : String) (src : Bytes)
+    (rd : List Bytes → Res FMsa × List Bytes) (m : FMsa)
+    (hrd : readerOf infmt = some rd) (h1 : rd (splitLines src) = (.ok m, [])) (h2 : rd [] = (.eof, [])) :
+    reformatMsa o infmt outfmt src = (transform o m).bind (writeOne o outfmt) :=
+  reformatMsa_single o infmt outfmt src rd m hrd h1 h2
+
+/-- **conversion and back** through the tool: aligned FASTA written by the tool, given back to the tool, is reproduced byte for byte -/
+theorem reformat_afa_idempotent (m : FMsa) (h : AfaTextWritable m) :
+    reformatMsa {} "afa" "afa" (afaWrite none m) = some (afaWrite none m) := by
+  have hr : afaRead (afaCfg none) (splitLines (afaWrite none m)) = (.ok (afaProject (afaCfg none) m), []) :=
+    afaRead_write none (afaCfg none) id m (afaTextWritable_writable m h)
+  rw [reformatMsa_single {} "afa" "afa" _ (afaRead (afaCfg none)) _ (by simp [readerOf]) hr (by simp [afaRead, runLines, afaFinish]),
+      transform_no_option]
+  simp [writeOne, msafileWrite, afaWrite_project_text m h]
+
+/-- … PHYLIP (either flavour) written by the tool and converted to aligned FASTA by the tool gives the names (first ten
+    characters) and rows of the alignment: the AFA rendering of C03's `phylipProject` -/
+theorem reformat_phylip_to_afa (seq : Bool) (m : FMsa) (h : PhylipTextWritable m) :
+    reformatMsa {} (if seq then "phylips" else "phylip") "afa" (phylipWrite seq none m)
+      = some (afaWrite none (phylipProject (phylipCfg none) m)) := by
+  cases seq
+  · have hr := phylipRead_write none (phylipCfg none) id _ m (phylipTextWritable_writable m h)
+    rw [show (if false = true then "phylips" else "phylip") = "phylip" from rfl,
+        reformatMsa_single {} "phylip" "afa" _ (phylipRead false (phylipCfg none)) _ (by simp [readerOf]) hr (by decide), transform_no_option]
+    simp [writeOne, msafileWrite]
+  · have hr := phylipsRead_write none (phylipCfg none) id _ m (phylipTextWritable_writable m h)
+    rw [show (if true = true then "phylips" else "phylip") = "phylips" from rfl,
+        reformatMsa_single {} "phylips" "afa" _ (phylipRead true (phylipCfg none)) _ (by simp [readerOf]) hr (by decide), transform_no_option]
+    simp [writeOne, msafileWrite]
+
+/-- `--namelen n` changes nothing for the eight formats that are not PHYLIP -/
+theorem reformat_namelen_ignored_elsewhere (n : Nat) (outfmt : String) (m : FMsa) (h1 : outfmt ≠ "phylip") (h2 : outfmt ≠ "phylips") :
+    writeOne { namelen := some n } outfmt m = writeOne {} outfmt m := by
+  simp [writeOne, h1, h2]
+
+/-- the residue conversions never change the shape: same number of rows, same row lengths, names untouched -/
+theorem reformat_convert_keeps_shape (o : Opts) (m : FMsa) :
+    (convertSyms o m).names = m.names ∧ (convertSyms o m).alen = m.alen ∧
+    (convertSyms o m).aseq.map List.length = m.aseq.map List.length := by
+  have hs : ∀ (a b : Bytes) (x : FMsa), (symConvert a b x).names = x.names ∧ (symConvert a b x).alen = x.alen ∧
+      (symConvert a b x).aseq.map List.length = x.aseq.map List.length := by
+    intro a b x
+    simp [symConvert, Function.comp_def]
+  unfold convertSyms
+  repeat' split
+  all_goals simp only [hs, and_self]
+
+/-! non-vacuity: 2 sequences, 61 columns (two lines per sequence), one name longer than ten characters -/
+def exAli61 : FMsa :=
+  { alen := 61, names := [[115, 101, 113, 49], [97, 98, 99, 100, 101, 102, 103, 104, 105, 106, 107, 108]],
+    aseq := [List.replicate 30 65 ++ [45] ++ List.replicate 30 67, List.replicate 60 71 ++ [63]],
+    wgt := [.dflt, .dflt] }
+
+theorem exAli61_writable : PhylipTextWritable exAli61 :=
+  { dig := rfl, n1 := by decide, alen1 := by decide, nmax := by decide, amax := by decide
+    name_ok := by unfold phyNameOk; decide +kernel
+    row_ok := by decide +kernel }
+
+example : (phySeqRowLines 4 none exAli61 1).flatten
+    = padTrunc 4 (exAli61.names.getD 1 []) ++ [32] ++ phyRectifyText (exAli61.aseq.getD 1 []) := by decide +kernel
+example : phylipRead true (phylipCfg none) (splitLines (phylipWriteW 10 true none exAli61))
+    = (.ok (phylipProject (phylipCfg none) exAli61), []) := by decide +kernel
+/-- the interleaved rendering of the same alignment is NOT a sequential file of it (what C13-c silently wrote) -/
+example : phylipWriteW 10 false none exAli61 ≠ phylipWriteW 10 true none exAli61 := by decide +kernel
+example : reformatMsa { namelen := some 10 } "phylips" "phylips" (phylipWrite true none exAli61)
+    = some (phylipWrite true none exAli61) := by decide +kernel
+
+end ReformatMsa
+
+/-! ## esl-alimask and esl-alimanip: "masking … and subset-selection tools agree with their definitions"
+
+The tools' own code computes a column mask (esl-alimask) or a row mask (esl-alimanip); applying it is C15's
+`ColumnSubset` / `SequenceSubset`.  The complete stdout of both tools is compared with `Ali.alimask` / `Ali.alimanip`. -/
+section AliTools
+open EaselModel.Msa EaselModel.Miniapps.Ali
+
+/-- **esl-alimask writes the column subset**: whatever mode computed the mask, the alignment written has every row, the RF
+    line (and all other per-column annotation, C15 `colFilter`) cut by that one mask, the same sequences under the same
+    names and weights, and is well formed; nothing but columns is removed -/
+theorem alimask_is_column_subset (nucleic : Bool) (t t' : TMsa) (useme : List Bool) (wf : t.WF) (habc : t.abc = none)
+    (hm : useme.length = t.alen) (h : alimaskApply nucleic t useme = some t') :
+    t'.rows = t.rows.map (maskFilter useme) ∧ t'.alen = (useme.filter id).length ∧ t'.sqname = t.sqname ∧ t'.nseq = t.nseq ∧
+    t'.rf = t.rf.map (maskFilter useme) ∧ t'.wgt = t.wgt ∧ t'.WF :=
+  alimaskApply_spec nucleic t t' useme wf habc hm h
+
+/-- **`esl-alimask -t a..b` keeps exactly columns a..b** of every row (1-based, inclusive) -/
+theorem alimask_truncate_is_slice (row : Bytes) (a b : Nat) :
+    maskFilter (truncMask row.length a b) row = (row.take b).drop (a - 1) := truncMask_slice row a b
+
+example : maskFilter (truncMask 6 2 4) [65, 67, 71, 84, 45, 65] = [67, 71, 84] := by decide
+
+/-- **esl-alimanip's sequence removal keeps the rows it selects**: each of `--seq-k`, `--seq-r`, `--lnfract`, `--lxfract`, `--lmin`, `--lmax`,
+    `--rffract`, `--detrunc` is `esl_msa_SequenceSubset` over a computed mask: the selected rows, names and weights in alignment order,
+    unchanged; the alignment length, alphabet and mode unchanged; at least one sequence left -/
+theorem alimanip_seq_subset_keeps_rows (t t' : TMsa) (useme : List Bool) (h : subsetRows t useme = some t') :
+    t'.rows = maskFilter useme t.rows ∧ t'.sqname = maskFilter useme t.sqname ∧ t'.wgt = maskFilter useme t.wgt ∧
+    t'.alen = t.alen ∧ t'.nseq = countSelected t useme ∧ t'.nseq ≠ 0 ∧ t'.abc = t.abc ∧ t'.flags = t.flags :=
+  subsetRows_spec t t' useme h
+
+/-- `--seq-k <f>` / `--seq-r <f>` select by "the name is listed in <f>" (every listed name must exist, none twice) -/
+theorem alimanip_seq_list_is_subset (t t' : TMsa) (seqlist : List Bytes) (doKeep : Bool)
+    (h : keepOrRemove t seqlist doKeep false = some t') :
+    ∃ idx, seqlist.mapM (fun nm => t.sqname.idxOf? nm) = some idx ∧
+      subsetRows t ((List.range t.nseq).map fun i => if idx.contains i then doKeep else !doKeep) = some t' :=
+  keepOrRemove_is_subset t t' seqlist doKeep h
+
+/-- `--reorder` / `--k-reorder`: a row and its name move together -/
+theorem alimanip_reorder_attached (t : TMsa) (order : List Nat) (i : Nat) (hi : i < order.length) :
+    (reorderMsa t order).rows.getD i [] = t.rows.getD (order.getD i 0) [] ∧
+    (reorderMsa t order).sqname.getD i [] = t.sqname.getD (order.getD i 0) [] := reorderMsa_attached t order i hi
+
+/-! non-vacuity: three sequences, keep the first and the third -/
+def exT : TMsa := { Msa.create 3 4 with rows := [[65, 67, 71, 84], [65, 45, 45, 84], [45, 67, 71, 45]] }
+example : (subsetRows exT [true, false, true]).map (·.rows) = some [[65, 67, 71, 84], [45, 67, 71, 45]] := by decide +kernel
+example : (alimaskApply false exT [true, false, false, true]).map (·.rows) = some [[65, 84], [65, 84], [45, 45]] := by decide +kernel
+example : (keepOrRemove exT [[115, 50], [115, 48]] true true).map (·.sqname) = some [[115, 50], [115, 48]] := by decide +kernel
+
+end AliTools
 
 end EaselModel.Props.C13
